@@ -1,14 +1,191 @@
-(* C08 - the server session follows the 9P fid state machine. (theorems follow) *)
-From stdpp Require Import gmap.
-From P9 Require Import Model.Path Model.Session.
+(* C08 - the server session follows the 9P fid state machine, for every
+   operation sequence and every file-system behaviour.
+   Only statements: each is closed by [exact lemma]; Print Assumptions follows.
 
-(* the witnesses of D8 and D9 on the repaired code *)
-Example C08_attach_afid_unlocks :
+   Vocabulary (Model/Session.v, Model/FidSpec.v, Proofs/SessionClauses.v):
+     srun sess0 ops      the session model run on ops : list (op * list tok); the token list of an
+                         operation fixes the outcome of each file-system call it makes
+     sp_run spec0 ops    the reference fid table of the property text run on the same input
+     abs s               the fid table of session state s:  fid |-> (entry, dir bit, open mode)
+     reach s             s is the state after some operation sequence (without Stop) from the empty session
+     fid_of s f          = sp_lookup (abs s) f: what fid f is bound to (None for NOFID and unbound fids) *)
+From stdpp Require Import gmap.
+From Coq Require Import NArith ZArith.
+From P9 Require Import Model.Path Model.Session Model.FidSpec
+  Proofs.SessionProofs Proofs.SessionGhost Proofs.SessionClauses.
+Open Scope N_scope.
+
+(* The session behaves like the reference fid table: same results, same final table,
+   and every operation returns. *)
+Theorem C08_refines : ∀ ops, no_stop ops →
+  let tr := srun sess0 ops in
+  results tr = (sp_run spec0 ops).2 ∧
+  abs (final sess0 tr) = (sp_run spec0 ops).1 ∧
+  Forall (λ r, r ≠ RHang) (results tr) ∧
+  length tr = length ops.
+Proof. exact refines_from_empty. Qed.
+Print Assumptions C08_refines.
+
+(* the simulation step itself, from any well-formed state (no SFid locked, none a placeholder) *)
+Theorem C08_step_refines : ∀ s o ts, WF s → is_stop o = false →
+  refines s (sstep s o ts) (sp_step (abs s) o ts).
+Proof. exact step_refines. Qed.
+Print Assumptions C08_step_refines.
+
+Theorem C08_reach_closed : ∀ s o ts, reach s → is_stop o = false → reach (sstep s o ts).1.1.
+Proof. exact reach_step. Qed.
+Print Assumptions C08_reach_closed.
+
+(* ---- the clauses of the property text ---- *)
+
+(* operations on an unbound fid (or NOFID) fail and change nothing *)
+Theorem C08_unbound_fails : ∀ s s' o ts r cs, reach s → sstep s o ts = (s', r, cs) →
+  ∀ f, op_fid o = Some f → sp_lookup (abs s) f = None → (∃ e, r = RErr e) ∧ abs s' = abs s.
+Proof. exact cl_unbound_fails. Qed.
+Print Assumptions C08_unbound_fails.
+
+(* attach / walk onto a bound fid: duplicate fid, nothing changes *)
+Theorem C08_attach_dup : ∀ s s' o ts r cs, reach s → sstep s o ts = (s', r, cs) →
+  ∀ f, o = OAttach f NOFID → is_Some (sp_lookup (abs s) f) → r = RErr EDup ∧ abs s' = abs s.
+Proof. exact cl_attach_dup. Qed.
+Print Assumptions C08_attach_dup.
+
+Theorem C08_walk_dup : ∀ s s' o ts r cs, reach s → sstep s o ts = (s', r, cs) →
+  ∀ f nf names, o = OWalk f nf names → is_Some (sp_lookup (abs s) f) → nf ≠ f →
+  is_Some (sp_lookup (abs s) nf) → (0 ≤ valid_path names)%Z → r = RErr EDup ∧ abs s' = abs s.
+Proof. exact cl_walk_dup. Qed.
+Print Assumptions C08_walk_dup.
+
+(* a complete walk binds newfid to the walked-to entry (the next entry the file system hands
+   over), not open, and leaves every other fid - the source included - as it was; with
+   newfid = fid this moves fid *)
+Theorem C08_walk_complete : ∀ s s' o ts r cs, reach s → sstep s o ts = (s', r, cs) →
+  ∀ f nf names, o = OWalk f nf names → ¬ (names = [] ∧ nf = f) →
+  r = ROk (N.of_nat (length names)) →
+  tab (abs s') = <[nf := Bind (next s) (t_dir (tokn ts 0)) None]> (tab (abs s)).
+Proof. exact cl_walk_complete. Qed.
+Print Assumptions C08_walk_complete.
+
+(* a partial or failed walk binds nothing *)
+Theorem C08_walk_incomplete : ∀ s s' o ts r cs, reach s → sstep s o ts = (s', r, cs) →
+  ∀ f nf names, o = OWalk f nf names → r ≠ ROk (N.of_nat (length names)) → abs s' = abs s.
+Proof. exact cl_walk_incomplete. Qed.
+Print Assumptions C08_walk_incomplete.
+
+(* clunk and remove always unbind the fid (whatever the file system answers) ... *)
+Theorem C08_clunk_unbinds : ∀ s s' o ts r cs, reach s → sstep s o ts = (s', r, cs) →
+  ∀ f, (o = OClunk f ∨ o = ORemove f) → is_Some (sp_lookup (abs s) f) →
+  tab (abs s') = delete f (tab (abs s)) ∧ sp_lookup (abs s') f = None.
+Proof. exact cl_del_unbinds. Qed.
+Print Assumptions C08_clunk_unbinds.
+
+(* ... and an unbound fid can be (re)used *)
+Theorem C08_reuse : ∀ s s' o ts r cs, reach s → sstep s o ts = (s', r, cs) →
+  ∀ f, o = OAttach f NOFID → sp_lookup (abs s) f = None → f ≠ NOFID → fs_err (tokn ts 0) = false →
+  r = ROk 0 ∧ sp_lookup (abs s') f = Some (Bind (next s) (t_dir (tokn ts 0)) None).
+Proof. exact cl_reuse. Qed.
+Print Assumptions C08_reuse.
+
+(* a fid can be opened at most once *)
+Theorem C08_open_once : ∀ s s' o ts r cs, reach s → sstep s o ts = (s', r, cs) →
+  ∀ f m b, o = OOpen f m → sp_lookup (abs s) f = Some b → is_Some (b_open b) →
+  r = RErr EIsopen ∧ abs s' = abs s.
+Proof. exact cl_open_once. Qed.
+Print Assumptions C08_open_once.
+
+Theorem C08_open_ok : ∀ s s' o ts r cs, reach s → sstep s o ts = (s', r, cs) →
+  ∀ f m n, o = OOpen f m → r = ROk n →
+  ∃ b, sp_lookup (abs s) f = Some b ∧ b_open b = None ∧
+       tab (abs s') = <[f := Bind (b_ent b) (b_dir b) (Some (m, false))]> (tab (abs s)).
+Proof. exact cl_open_ok. Qed.
+Print Assumptions C08_open_ok.
+
+(* create leaves the fid open on the new entry *)
+Theorem C08_create_leaves_open : ∀ s s' o ts r cs, reach s → sstep s o ts = (s', r, cs) →
+  ∀ f name m n, o = OCreate f name m → r = ROk n →
+  tab (abs s') = <[f := Bind (next s) (t_dir (tokn ts 0)) (Some (m, false))]> (tab (abs s)).
+Proof. exact cl_create_ok. Qed.
+Print Assumptions C08_create_leaves_open.
+
+(* read / write succeed only on an open fid whose mode permits them *)
+Theorem C08_read_mode : ∀ s s' o ts r cs, reach s → sstep s o ts = (s', r, cs) →
+  ∀ f n, o = ORead f → r = ROk n →
+  ∃ b m dn, sp_lookup (abs s) f = Some b ∧ b_open b = Some (m, dn) ∧ N.land m 3 ≠ 1.
+Proof. exact cl_read_ok. Qed.
+Print Assumptions C08_read_mode.
+
+Theorem C08_write_mode : ∀ s s' o ts r cs, reach s → sstep s o ts = (s', r, cs) →
+  ∀ f n, o = OWrite f → r = ROk n →
+  ∃ b m dn, sp_lookup (abs s) f = Some b ∧ b_open b = Some (m, dn) ∧ (N.land m 3 = 1 ∨ N.land m 3 = 2).
+Proof. exact cl_write_ok. Qed.
+Print Assumptions C08_write_mode.
+
+(* ---- non-vacuity: a reachable state in which the hypotheses of the clauses hold ----
+   fid 0: a directory, open for reading; fid 1: a file reached by a walk, not open;
+   fid 2: a file created and left open for writing; fid 3: unbound. *)
+Definition ex_ops : list (op * list tok) :=
+  [ (OAttach 0 NOFID, [Tok 0 true 0]);
+    (OWalk 0 1 [[97]], [Tok 0 false 1]);
+    (OWalk 0 2 [], [Tok 0 true 0]);
+    (OCreate 2 [110] 1, [Tok 0 false 0]);
+    (OOpen 0 0, []) ].
+Definition ex_s : sess := after ex_ops.
+
+Example C08_ex_reach : reach ex_s.
+Proof. exists ex_ops. split; [repeat constructor|reflexivity]. Qed.
+
+Example C08_ex_table :
+  map_to_list (tab (abs ex_s)) ≡ₚ
+  [ (0, Bind 0 true (Some (0, false))); (1, Bind 1 false None); (2, Bind 3 false (Some (1, false))) ].
+Proof. vm_compute. reflexivity. Qed.
+
+(* the run of the example agrees with the reference and nothing hangs (C08_refines, instantiated) *)
+Example C08_ex_results : results (srun sess0 ex_ops) = [ROk 0; ROk 1; ROk 0; ROk 0; ROk 0]
+  ∧ (sp_run spec0 ex_ops).2 = [ROk 0; ROk 1; ROk 0; ROk 0; ROk 0].
+Proof. split; vm_compute; reflexivity. Qed.
+
+(* hypotheses of the clauses, one by one *)
+Example C08_ex_unbound : op_fid (ORead 3) = Some 3 ∧ sp_lookup (abs ex_s) 3 = None
+  ∧ (sstep ex_s (ORead 3) []).1.2 = RErr EUnknown
+  ∧ sp_lookup (abs ex_s) NOFID = None.
+Proof. vm_compute. done. Qed.
+
+Example C08_ex_dup : is_Some (sp_lookup (abs ex_s) 0) ∧ is_Some (sp_lookup (abs ex_s) 1) ∧ 1 ≠ 0
+  ∧ (0 ≤ valid_path [[97%N]])%Z
+  ∧ (sstep ex_s (OWalk 0 1 [[97]]) []).1.2 = RErr EDup
+  ∧ (sstep ex_s (OAttach 1 NOFID) []).1.2 = RErr EDup.
+Proof. split_and!; try (vm_compute; done); vm_compute; by eexists. Qed.
+
+Example C08_ex_walk_complete_and_partial :
+  (sstep ex_s (OWalk 0 3 [[97]; [98]]) [Tok 0 false 2]).1.2 = ROk 2
+  ∧ (sstep ex_s (OWalk 0 3 [[97]; [98]]) [Tok 0 false 1]).1.2 = ROk 1
+  ∧ (sstep ex_s (OWalk 0 0 [[97]]) [Tok 0 true 1]).1.2 = ROk 1   (* in place: moves fid 0 *)
+  ∧ sp_lookup (abs (sstep ex_s (OWalk 0 0 [[97]]) [Tok 0 true 1]).1.1) 0 = Some (Bind 4 true None).
+Proof. vm_compute. done. Qed.
+
+Example C08_ex_clunk_remove_reuse :
+  (sstep ex_s (OClunk 1) [Tok 1 false 0]).1.2 = RErr EFs      (* the file system's clunk fails ... *)
+  ∧ sp_lookup (abs (sstep ex_s (OClunk 1) [Tok 1 false 0]).1.1) 1 = None   (* ... the fid is unbound all the same *)
+  ∧ (sstep (sstep ex_s (ORemove 1) []).1.1 (OAttach 1 NOFID) [Tok 0 true 0]).1.2 = ROk 0.
+Proof. vm_compute. done. Qed.
+
+Example C08_ex_open_once_create_modes :
+  (sstep ex_s (OOpen 0 0) []).1.2 = RErr EIsopen
+  ∧ (sstep ex_s (OOpen 1 2) []).1.2 = ROk 0
+  ∧ (sstep ex_s (ORead 0) []).1.2 = ROk 0           (* open OREAD *)
+  ∧ (sstep ex_s (OWrite 0) []).1.2 = RErr ENowrite
+  ∧ (sstep ex_s (OWrite 2) []).1.2 = ROk 0          (* created with OWRITE *)
+  ∧ (sstep ex_s (ORead 2) []).1.2 = RErr ENoread
+  ∧ (sstep ex_s (ORead 1) []).1.2 = RErr ENofile.
+Proof. vm_compute. done. Qed.
+
+(* the witnesses of the two repaired dead-locks now return *)
+Example C08_ex_attach_afid_returns :
   results (srun sess0 [(OAttach 0 NOFID, [Tok 0 true 0]); (OAttach 1 0, []); (OStat 0, [])])
   = [ROk 0; RErr EUnknown; ROk 0].
 Proof. vm_compute. reflexivity. Qed.
 
-Example C08_create_dir_opendir_fails_returns :
-  results (srun sess0 [(OAttach 0 NOFID, [Tok 0 true 0]); (OCreate 0 [110] 0, [Tok 0 true 0; Tok 1 false 0])])
-  = [ROk 0; RErr EFs].
+Example C08_ex_create_dir_opendir_fails_returns :
+  results (srun sess0 [(OAttach 0 NOFID, [Tok 0 true 0]); (OCreate 0 [110] 0, [Tok 0 true 0; Tok 1 false 0]); (OStat 0, [])])
+  = [ROk 0; RErr EFs; RErr EUnknown].
 Proof. vm_compute. reflexivity. Qed.
